@@ -303,6 +303,23 @@ MinusAdjacent(T, g) ==
 \* A bare print directly followed by ';' (what deviation print-semicolon rejects)
 BarePrintSemi(T, g) == \E i \in 1..(Len(T) - 1) : T[i].tag = "Print" /\ g[i] = "semi"
 
+\* ---- the value a numeric literal denotes: its decimal reading, whatever
+\* zeros are written in front of the integer digits or behind the fraction
+\* digits.  Exact decimal in canonical form: ip = integer digits without
+\* leading zeros (<<"0">> for zero), fp = fraction digits without trailing
+\* zeros; value = ip.fp read in base ten.  (Digit sequences, not integers:
+\* literals may be longer than any machine integer.)
+RECURSIVE DropLeadingZeros(_)
+DropLeadingZeros(d) == IF Len(d) > 1 /\ d[1] = "0" THEN DropLeadingZeros(Tail(d)) ELSE d
+RECURSIVE DropTrailingZeros(_)
+DropTrailingZeros(d) == IF Len(d) > 0 /\ d[Len(d)] = "0" THEN DropTrailingZeros(SubSeq(d, 1, Len(d) - 1)) ELSE d
+\* the two digit runs of a literal  digit+ ('.' digit+)?
+IntDigits(text) == SubSeq(text, 1, ScanWhile(text, 0, Digits))
+FracDigits(text) == LET q == ScanWhile(text, 0, Digits) IN IF q < Len(text) THEN SubSeq(text, q + 2, Len(text)) ELSE <<>>
+NumValue(text) == [ip |-> DropLeadingZeros(IntDigits(text)), fp |-> DropTrailingZeros(FracDigits(text))]
+\* the canonical spelling of that value
+NumCanon(v) == v.ip \o (IF Len(v.fp) > 0 THEN <<".">> \o v.fp ELSE <<>>)
+
 \* ---- the value a string literal denotes when evaluated: exactly its bytes,
 \* with \n \t \\ as the only escapes; anything else after a backslash (or a
 \* backslash at the end) is an error.
